@@ -92,7 +92,9 @@ def defs_context():
 _NLARGS = []
 NLARGS_ATOMS = ['\\flag', '\\flag*', '\\ttl{H}', '\\ttl{H}\\label{a}', '\\ttl', '\\full{a}', '\\full', '\\full x', '\\emb',
                 '\\emb^a', '\\emb_b^c', ' x', 'y', ' ', '{', '}', '$', '\\begin{envf}', '\\begin{envf}+', '\\end{envf}',
-                '\\alpha', '\n\n', '%c\n', '\\label{z}', '\\unk']
+                '\\alpha', '\n\n', '%c\n', '\\label{z}', '\\unk',
+                '\\chg{a\\b$%c\n}', '\\chg{a{b}c}', '\\chg', '\\chg x', '\\csl{a,b}', '\\csl{a, {b,c} ,,d}', '\\csl{}',
+                '\\csl{a%c\n,b}', '\\csl', '\\anyd(a)', '\\anyd<a{)}>', '\\anyd[x]', '\\anyd', ',']
 
 
 def nlargs_strings(rng, count):
@@ -118,6 +120,9 @@ def nlargs_context():
                               LatexArgumentSpec(P.LatexTackOnInformationFieldMacrosParser(['label']))]),
             MacroSpec('full', [LatexArgumentSpec(P.LatexStandardArgumentParser('{', return_full_node_list=True))]),
             MacroSpec('label', '{'), MacroSpec('alpha', ''),
+            MacroSpec('chg', [LatexArgumentSpec(P.LatexCharsGroupParser())]),
+            MacroSpec('csl', [LatexArgumentSpec(P.LatexCharsCommaSeparatedListParser())]),
+            MacroSpec('anyd', [LatexArgumentSpec('AnyDelimitedOptional')]),
         ], environments=[EnvironmentSpec('envf', [LatexArgumentSpec(P.LatexOptionalCharsMarkerParser(
             ['+'], return_full_node_list=True, return_none_instead_of_empty=False))])])
         db.set_unknown_macro_spec(MacroSpec(''))
